@@ -54,6 +54,7 @@ def tr_scenario(name, r):
     if unit == 'W_in':
         cfg['data_handler'] = mv.get('data_handler', 'none') != 'none'
         cfg['alias_params_resolver'] = mv.get('alias_params_resolver', 'none') != 'none' and any(c['name'] == 'alias_params_resolver' for c in r['scenario']['calls'])
+        cfg['alias_format_fails'] = any(c['name'] == 'alias.format' for c in r['scenario']['calls'])
         fb = mv.get('fallback_aliases', 'none')
         cfg['fallback_aliases'] = None if fb == 'none' else 'callable' if mv.get('fallback_aliases.callable') == 'True' else 'list'
         cfg['run_intercepted_when_missing'] = dec(mv.get('run_intercepted_when_missing')) is True
